@@ -6,6 +6,7 @@
 
 #include <cmath>
 #include <cstdlib>
+#include <limits>
 #include <vector>
 
 static int const SC = 20;
@@ -159,8 +160,10 @@ static void real_run(int run, vt::rng& g)
         d[2] = T(2) * x;
         return T(1);
     };
+    long poison_call = (run % 4 == 1) ? (long) g.range(0, 5 * N) : -1; // one evaluation is +infinity in some runs
     auto fn = [&](hep::multi_channel_point<T> const& p) {
-        long it = calls_done++ / N;
+        long it = calls_done / N;
+        if (calls_done++ == poison_call) return std::numeric_limits<T>::infinity();
         if (it == zero_iter) return T();
         T x = p.coordinates()[0];
         return variant == 0 ? x * x : (variant == 1 ? T(1) / (T(0.01) + x) : std::exp(-T(50) * (x - T(0.3)) * (x - T(0.3))));
@@ -169,10 +172,14 @@ static void real_run(int run, vt::rng& g)
     if (run % 3 == 0) w0 = std::vector<T>{T(1), T(1), T(1)};
     T m = (run % 2) ? T() : T(g.range(1, 30)) / T(100);
     T beta = T(g.range(10, 100)) / T(100);
-    auto integrand = hep::make_multi_channel_integrand<T>(fn, 1, map, 1, n);
+    // every other run fills a distribution (the accumulator specialisation with distributions is a different code path)
+    auto fnd = [&](hep::multi_channel_point<T> const& p, hep::projector<T>& pr) { T v = fn(p); pr.add(0, p.coordinates()[0], T(1)); return v; };
     auto chk = hep::make_multi_channel_chkpt<T>(w0, m, beta);
     using C = decltype(chk);
-    auto res = hep::multi_channel(integrand, std::vector<std::size_t>(6, (std::size_t) N), chk, hep::callback<C>(hep::callback_mode::silent));
+    auto res = (run % 2) ? hep::multi_channel(hep::make_multi_channel_integrand<T>(fnd, 1, map, 1, n, hep::make_dist_params<T>(4, T(), T(1), "x")),
+                               std::vector<std::size_t>(6, (std::size_t) N), chk, hep::callback<C>(hep::callback_mode::silent))
+                         : hep::multi_channel(hep::make_multi_channel_integrand<T>(fn, 1, map, 1, n), std::vector<std::size_t>(6, (std::size_t) N), chk,
+                               hep::callback<C>(hep::callback_mode::silent));
     T fl = m / (T(1) + T(n) * m);
     long prevId = 0;
     for (std::size_t k = 0; k != res.results().size(); ++k)
